@@ -416,3 +416,10 @@ def r_sib_r_c13_12(ctx):
 def r_sib_r_c13_13(ctx):
     from .c01 import r8 as trace_equivalence
     trace_equivalence(ctx)
+
+
+@rule("R-C13-14", min_instances=4, title="every frame the protocol allows reaches the application: no legal header / length combination (the 126 and 65536 boundaries of the length encodings included) is refused on the way to the callbacks")
+def r_sib_r_c13_14(ctx):
+    from .c05 import _check
+    _check(ctx, "recv_frame", "idle", lambda kind, name: kind == "accept")
+    _check(ctx, "recv_data_frame", "idle", lambda kind, name: kind == "accept")
